@@ -47,14 +47,16 @@ PROPS = {
     "C09": {
         "verus": ["auditor"],
         "search": True,
-        "bounded_search": [{"obligation": "auditor/ensure_prefix_free#E_prefix_free",
-                            "bound": "all sets of <= 3 labels of <= 3 bits (thorough: 4 bits), each with and without stray bits beyond the length; accepted <==> pairwise prefix-free"}],
+        "bounded_search": [{"obligation": "auditor/ensure_prefix_free#completeness",
+                            "bound": "cross-check only (the soundness direction is PROVED in Verus): all sets of <= 3 labels of <= 3 bits (thorough: 4), with and without stray bits; accepted <==> pairwise prefix-free"}],
         "always_search": True,
         "scope": "auditor side: audit_verify Ok ==> |epochs|+1 = |hashes|, |epochs| = |proofs| and every transition i was accepted for (hashes[i], hashes[i+1], epochs[i]+1); a transition is "
-                 "accepted only if both reconstructed node sets are prefix-free (no shadowed / duplicated / overlapping subtree) and the reconstructed root hashes equal the given ones "
+                 "accepted only if both reconstructed node sets are prefix-free (no shadowed / duplicated / overlapping subtree: the validation helper ensure_prefix_free is proved - canonicalise, sort, "
+                 "compare neighbours - through an order lemma on bit strings) and the reconstructed root hashes equal the given ones "
                  "(start from the unchanged nodes, end from unchanged + inserted leaves committed with the end epoch). That batch_insert_nodes computes the canonical tree is assumed (C01).",
         "trusted": ["Azks::new / batch_insert_nodes / get_root_hash external: the root hash is a function of (start epoch, inserted node set, mode) for one insertion into a fresh manager",
-                    "collision resistance for 'replacing any root hash makes verification fail'"],
+                    "collision resistance for 'replacing any root hash makes verification fail'",
+                    "assumed std contracts: <[T]>::sort_unstable_by returns a rearrangement ordered by the comparator; <[u8; 32] as Ord>::cmp is byte-wise lexicographic (cross-checked by Kani c17_cmp_contract); Ordering::then"],
         "assumed": ["attacker-supplied epochs are < u64::MAX and the epoch list is shorter than usize::MAX (overflow guards)"],
     },
     "C15": {
